@@ -668,6 +668,11 @@ func gen(r *sim.Rng, tier string) *sim.Case {
 		maxTasks = 10
 	}
 	nScript := r.N(maxTasks + 1)
+	if r.Pct(3) {
+		nScript = r.Range(15, 40) // rare large run
+		c.Params["limit"] = []int{1, 2, 3, 8, 16}[r.N(5)]
+		nEff = c.Params["limit"]
+	}
 	panicPct := []int{0, 20, 50, 100}[r.N(4)]
 	blockPct := []int{0, 20, 60}[r.N(3)]
 	var prog []sim.Op
